@@ -7,6 +7,7 @@
 import Gen.SrcC02
 import CRModel.CRProto
 import CRProofs.CRProto
+import CRProps.C02
 namespace CR.PBF
 open PB
 
@@ -170,6 +171,44 @@ theorem tie_W_PhantomObstacle (o : Phantom) : Gen.W_PhantomObstacle o = encPhant
 
 theorem tie_W_GoalState (g : Goal) : Gen.W_GoalState g.state g.lanelets = encGoal g := rfl
 
+
+/-! ## the C02 round trips, stated on the builders AS THEY ARE IN THE SOURCE NOW
+
+  The model's decoder applied to what the current source's builder produces (not to the hand-written encoder). -/
+
+theorem T02_src_shape_roundtrip (s : Shape) : decShape (Gen.W_Shape encShape s) = s := by
+  rw [tie_W_Shape]; exact C02_shape_roundtrip s
+
+theorem T02_src_lanelet_roundtrip (l : Lanelet) : decLanelet (Gen.W_Lanelet l) = .ok (normLanelet l) := by
+  rw [tie_W_Lanelet]; exact C02_lanelet_roundtrip l
+
+/-- traffic-sign virtual flag and first occurrences survive what TrafficSignMessage.create_message writes now -/
+theorem T02_src_sign_roundtrip (s : Sign) (v : Bool) (h : s.virtual = some v) :
+    decSign (Gen.W_TrafficSign s) = normSign s ∧ (decSign (Gen.W_TrafficSign s)).first = s.first
+      ∧ (decSign (Gen.W_TrafficSign s)).virtual = some v := by
+  rw [tie_W_TrafficSign]; exact ⟨C02_sign_roundtrip s, C02_sign_first_virtual s v h⟩
+
+/-- traffic-light offset / direction / active survive what TrafficLightMessage.create_message writes now -/
+theorem T02_src_light_roundtrip (t : Light) (o : Int) (d : String) (a : Bool) (ho : t.offset = some o)
+    (hd : t.direction = some d) (ha : t.active = some a) :
+    (decLight (Gen.W_TrafficLight t)).offset = some o ∧ (decLight (Gen.W_TrafficLight t)).direction = some d ∧
+    (decLight (Gen.W_TrafficLight t)).active = some a ∧ (decLight (Gen.W_TrafficLight t)).cycle = t.cycle := by
+  rw [tie_W_TrafficLight]; exact C02_light_optional t o d a ho hd ha
+
+/-- environment time with day / month / year, time of day, weather, underground, geo transformation -/
+theorem T02_src_location_roundtrip (l : Loc) : decLoc (Gen.W_Location l) = l := by
+  rw [tie_W_Location]; exact C02_location_roundtrip l
+
+/-- signal states incl. horn: every set slot survives, every unset slot stays unset -/
+theorem T02_src_signal_roundtrip (s : Sig) (h : s.any = true) : decSig (Gen.W_SignalState s) = some s := by
+  rw [tie_W_SignalState]; exact C02_signal_roundtrip s h
+
+/-- interval- and region-valued state attributes: the message StateMessage.create_message builds now (without its null
+    padding) reads back with the same time step, position and attributes -/
+theorem T02_src_state_roundtrip (s : St) (h : s.wf = true) (hk : ∀ kv ∈ s.attrs, kv.1 ∈ stateFields) :
+    (decState (CR.PyC02.dropNull (Gen.W_State s))).t = s.t ∧ (decState (CR.PyC02.dropNull (Gen.W_State s))).pos = s.pos
+      ∧ (decState (CR.PyC02.dropNull (Gen.W_State s))).attrs = s.attrs := by
+  rw [tie_W_State_wf s hk]; exact C02_state_roundtrip s h
 
 /-! ## structural tables: which fields the writer sets, which the reader touches, what the descriptors declare
 
